@@ -48,7 +48,7 @@ def _names(expr):
     return set(n.id for n in ast.walk(expr) if isinstance(n, ast.Name))
 
 
-def facts_at(module, func, node):
+def facts_at(module, func, node, no_kill=()):
     """List of (atom expr, truth) that dominate ``node`` inside ``func``."""
     # chain of (block list, index in block, owner stmt) from the function body down to the node
     chain = []
@@ -67,6 +67,7 @@ def facts_at(module, func, node):
     facts = []      # (atom, truth, names)
 
     def kill(names):
+        names = set(names) - set(no_kill)
         facts[:] = [f for f in facts if not (f[2] & names)]
 
     def add(test, truth):
